@@ -1163,9 +1163,23 @@ pub fn c08(ctx: &mut Ctx) {
         let t = crate::props_direct::render_iso(2015, 8, 30, h, mi, sec, 0, "", "+2359");
         tris.push(Tri { op: "ISO", line: format!("ISO {}", hx(t.as_bytes())), imp: Some(imp::iso(&t)), spec: None, class: "c08-direct".into(), clause: "a public operation panicked", show: t.clone() });
     }
+    // unescape_uri_encoding: documented as panicking on malformed escapes; on normal-form text (all it is
+    // ever given on the validation path) it must not; crate and model must agree on every input, panics included
+    for _ in 0..ctx.n(2000, 40000) {
+        let l = rng.below(10);
+        let raw: String = (0..l).map(|_| *rng.pick(&['a', '%', '2', 'F', 'f', '+', 'z', '~', 'é', ' '])).collect();
+        let normal = match imp::elem(false, &raw).strip_prefix("OK ") { Some(h) => String::from_utf8(unhx(h)).unwrap(), None => String::new() };
+        for (s, must_not_panic) in [(raw.clone(), false), (normal, true)] {
+            let out = imp::unesc(&s);
+            if must_not_panic && out.starts_with("PANIC") {
+                ctx.rep.fail(Failure { kind: "ORACLE", op: "UNESC".into(), class: "panic:unescape-normal-form".into(), input: format!("UNESC {}", hx(s.as_bytes())), imp: out.clone(), model: String::new(), spec: String::new(), clause: "C08: unescape_uri_encoding panicked on normal-form text".into() });
+            }
+            tris.push(Tri { op: "UNESC", line: format!("UNESC {}", hx(s.as_bytes())), imp: Some(out), spec: None, class: "c08-unescape".into(), clause: "", show: format!("\"{}\"", show(s.as_bytes())) });
+        }
+    }
     // panics in direct operations are oracle failures too
     for t in &tris {
-        if t.imp.as_ref().map(|i| i.starts_with("PANIC")).unwrap_or(false) {
+        if t.op != "UNESC" && t.imp.as_ref().map(|i| i.starts_with("PANIC")).unwrap_or(false) {
             ctx.rep.fail(Failure { kind: "ORACLE", op: t.op.into(), class: "panic:c08-direct".into(), input: t.line.clone(), imp: t.imp.clone().unwrap(), model: String::new(), spec: String::new(), clause: format!("C08: {} panicked on {}", t.op, t.show) });
         }
     }
